@@ -40,7 +40,7 @@ fn main() {
             for idx in start..start + count {
                 let before = tally.violations.len();
                 match profile.as_str() {
-                    "c15" => vh::pure::c15(seed, idx, &mut tally),
+                    "c15" => vh::pure::c15(seed, idx, &mut tally, &workdir),
                     "c16" => vh::pure::c16(seed, idx, &mut tally, &workdir),
                     "c17" => vh::pure::c17(seed, idx, &mut tally),
                     "c18" => vh::pure::c18(seed, idx, &mut tally),
